@@ -9,6 +9,7 @@ import Sudachi.Model.Numeric
 import Sudachi.Model.Cli
 import Sudachi.Model.Sched
 import Sudachi.Model.Rewrite
+import Sudachi.Model.Subset
 /-! Line protocol dispatcher: one case per line in, one answer per line out. -/
 namespace Driver
 
@@ -28,6 +29,7 @@ def answer (line : String) : String :=
     | "C19" => Cli.handle op rest
     | "C18" => Sched.handle rest
     | "C14" => Rewrite.handle rest
+    | "C11" => Subset.handle op rest
     | _ => "bad-op"
   | _ => "bad-op"
 
